@@ -30,6 +30,15 @@ namespace AIToolbox::Factored::MDP {
     //     Remove initial variables - "paste" them in.
 
     std::optional<Vector> FactoredLP::operator()(const FactoredVector & C, const FactoredVector & b, bool addConstantBasis) {
+        // The implied constant basis is carried by spreading 1/|C| over the
+        // rules of C; with no basis at all nothing would carry it. A constant
+        // is the same as a basis of ones over any single factor.
+        if (addConstantBasis && C.bases.empty()) {
+            FactoredVector ones;
+            ones.bases.emplace_back(BasisFunction{{0}, Vector::Ones(S[0])});
+            return (*this)(ones, b, false);
+        }
+
         // Clear everything so we can use this function multiple times.
         VE::Graph graph(S.size());
 
